@@ -101,7 +101,25 @@ impl Dump {
     }
 }
 
+/// Formatting with a watchdog: the layout search is exponential on some inputs (finding F21), and a run
+/// that does not come back within the budget is reported as "TIMEOUT" (its thread is abandoned).
 pub fn format_with(src: &str, opt: PrettyOptions) -> Result<String, String> {
+    let (tx, rx) = std::sync::mpsc::channel();
+    let owned = src.to_string();
+    std::thread::Builder::new()
+        .stack_size(64 << 20)
+        .spawn(move || {
+            let _ = tx.send(format_unbounded(&owned, opt));
+        })
+        .expect("spawn");
+    let budget = std::env::var("ZYFMT_BUDGET_S").ok().and_then(|s| s.parse().ok()).unwrap_or(10u64);
+    match rx.recv_timeout(std::time::Duration::from_secs(budget)) {
+        | Ok(r) => r,
+        | Err(_) => Err(format!("TIMEOUT no output after {budget} s")),
+    }
+}
+
+fn format_unbounded(src: &str, opt: PrettyOptions) -> Result<String, String> {
     let r = guarded(|| {
         let info = FileInfo::new(src, Some(Arc::new(std::path::PathBuf::from("mem.zy"))));
         let loc = LocationCtx::File(info);
@@ -117,9 +135,1091 @@ pub fn format_with(src: &str, opt: PrettyOptions) -> Result<String, String> {
     }
 }
 
+
+// ------------------------------------------------------------------------------------------------
+// independent scanner: code tokens and comments of a source text (deliberately not the repository's lexer)
+
+#[derive(Clone, Debug, PartialEq, Eq)]
+pub struct Cmt {
+    /// "line" | "text" | "block"
+    pub kind: &'static str,
+    /// content with the marker and surrounding blanks removed, lines trimmed
+    pub text: String,
+    /// number of code tokens before the comment
+    pub at: usize,
+}
+#[derive(Clone, Debug, Default)]
+pub struct Scan {
+    pub tokens: Vec<String>,
+    pub comments: Vec<Cmt>,
+    /// every token and comment in source order: (is_comment, char start, char end)
+    pub items: Vec<(bool, usize, usize)>,
+}
+
+fn is_ident_char(c: char) -> bool {
+    c.is_ascii_alphanumeric() || matches!(c, '_' | '\'' | '?' | '+' | '*' | '-' | '=' | '~')
+}
+
+pub fn scan(src: &str) -> Scan {
+    let cs: Vec<char> = src.chars().collect();
+    let n = cs.len();
+    let mut out = Scan::default();
+    let mut i = 0;
+    let at = |i: usize, s: &str| -> bool { s.chars().enumerate().all(|(k, c)| i + k < n && cs[i + k] == c) };
+    // one lexeme starting at i (not whitespace): returns its end
+    let lexeme_end = |i: usize| -> usize {
+        let c = cs[i];
+        let run = |mut j: usize| {
+            while j < n && is_ident_char(cs[j]) {
+                j += 1;
+            }
+            j
+        };
+        if c.is_ascii_alphabetic() {
+            return run(i + 1);
+        }
+        if c == '_' {
+            return run(i + 1);
+        }
+        if c == '+' && i + 1 < n && cs[i + 1].is_ascii_uppercase() {
+            return run(i + 2);
+        }
+        if c == '.' && i + 1 < n && cs[i + 1].is_ascii_lowercase() {
+            return run(i + 2);
+        }
+        let digit_at = |j: usize| j < n && cs[j].is_ascii_digit();
+        if c.is_ascii_digit() || ((c == '+' || c == '-') && digit_at(i + 1)) {
+            let mut j = i + 1;
+            while digit_at(j) {
+                j += 1;
+            }
+            if j < n && cs[j] == '.' && digit_at(j + 1) {
+                j += 1;
+                while digit_at(j) {
+                    j += 1;
+                }
+            }
+            if j < n && (cs[j] == 'e' || cs[j] == 'E') {
+                let mut k = j + 1;
+                if k < n && (cs[k] == '+' || cs[k] == '-') {
+                    k += 1;
+                }
+                if digit_at(k) {
+                    while digit_at(k) {
+                        k += 1;
+                    }
+                    j = k;
+                }
+            }
+            return j;
+        }
+        if c == '"' {
+            let mut j = i + 1;
+            while j < n && cs[j] != '"' {
+                if cs[j] == '\\' {
+                    j += 1;
+                }
+                j += 1;
+            }
+            return (j + 1).min(n);
+        }
+        if c == '\'' {
+            if i + 2 < n && cs[i + 1] != '\\' && cs[i + 2] == '\'' {
+                return i + 3;
+            }
+            if i + 3 < n && cs[i + 1] == '\\' && cs[i + 3] == '\'' {
+                return i + 4;
+            }
+            return i + 1;
+        }
+        for two in ["::", "=>", "->", "<-", "/-", "-/"] {
+            if at(i, two) {
+                return i + 2;
+            }
+        }
+        i + 1
+    };
+    while i < n {
+        let c = cs[i];
+        if c.is_whitespace() {
+            i += 1;
+            continue;
+        }
+        if at(i, "--") {
+            let mut j = i;
+            while j < n && cs[j] != '\n' {
+                j += 1;
+            }
+            let line: String = cs[i..j].iter().collect();
+            let (kind, body) = if let Some(b) = line.strip_prefix("--|") { ("text", b) } else { ("line", &line[2..]) };
+            out.comments.push(Cmt { kind, text: body.trim().to_string(), at: out.tokens.len() });
+            out.items.push((true, i, j));
+            i = j;
+            continue;
+        }
+        if at(i, "/-") {
+            // nested; inside, lexemes are read as usual so that strings and line comments hide markers
+            let start = i;
+            let mut depth = 0usize;
+            let mut j = i;
+            loop {
+                if j >= n {
+                    break;
+                }
+                if cs[j].is_whitespace() {
+                    j += 1;
+                    continue;
+                }
+                if at(j, "--") {
+                    while j < n && cs[j] != '\n' {
+                        j += 1;
+                    }
+                    continue;
+                }
+                let e = lexeme_end(j);
+                let lx: String = cs[j..e].iter().collect();
+                j = e;
+                if lx == "/-" {
+                    depth += 1;
+                } else if lx == "-/" {
+                    depth -= 1;
+                    if depth == 0 {
+                        break;
+                    }
+                }
+            }
+            let raw: String = cs[start..j].iter().collect();
+            let inner = raw.strip_prefix("/-").unwrap_or(&raw);
+            let inner = inner.strip_suffix("-/").unwrap_or(inner);
+            let text = inner.lines().map(|l| l.trim()).filter(|l| !l.is_empty()).collect::<Vec<_>>().join("\n");
+            out.comments.push(Cmt { kind: "block", text, at: out.tokens.len() });
+            out.items.push((true, start, j));
+            i = j;
+            continue;
+        }
+        let e = lexeme_end(i);
+        out.tokens.push(cs[i..e].iter().collect());
+        out.items.push((false, i, e));
+        i = e;
+    }
+    out
+}
+
+/// Re-spellings of a source that keep every token and comment: the starting layouts of C14.
+pub fn relayout(src: &str, how: &str, rng: &mut Rng) -> String {
+    let cs: Vec<char> = src.chars().collect();
+    let sc = scan(src);
+    let text = |a: usize, b: usize| -> String { cs[a..b].iter().collect() };
+    let mut out = String::new();
+    let mut prev_end = 0usize;
+    for (k, (is_c, a, b)) in sc.items.iter().enumerate() {
+        let gap = text(prev_end, *a);
+        let item = text(*a, *b);
+        let prev_is_line_comment = k > 0 && sc.items[k - 1].0 && text(sc.items[k - 1].1, sc.items[k - 1].2).starts_with("--");
+        match how {
+            | "hspace" => {
+                // horizontal spacing only; the column of a multi-line block comment is left alone
+                if *is_c && item.contains('\n') {
+                    out.push_str(&gap);
+                } else {
+                    let mut run = false;
+                    for ch in gap.chars() {
+                        if ch == ' ' || ch == '\t' {
+                            if !run {
+                                out.push_str(&" ".repeat(1 + rng.below(3)));
+                            }
+                            run = true;
+                        } else {
+                            out.push(ch);
+                            run = false;
+                        }
+                    }
+                }
+            }
+            | "flat" => {
+                if k > 0 {
+                    out.push_str(if prev_is_line_comment { "\n" } else { " " });
+                }
+            }
+            | "broken" => {
+                if k > 0 {
+                    out.push('\n');
+                }
+            }
+            | _ => out.push_str(&gap),
+        }
+        out.push_str(&item);
+        prev_end = *b;
+    }
+    out.push_str(&text(prev_end, cs.len()).replace(|c: char| how != "hspace" && c != '\n', ""));
+    if !out.ends_with('\n') {
+        out.push('\n');
+    }
+    out
+}
+
+/// One random edit that keeps the source parseable in most cases: a comment in a token gap, a redundant pair
+/// around an identifier, a line break inserted or removed.
+pub fn mutate_layout(src: &str, rng: &mut Rng) -> Option<(String, &'static str)> {
+    let cs: Vec<char> = src.chars().collect();
+    let sc = scan(src);
+    if sc.items.len() < 3 {
+        return None;
+    }
+    let text = |a: usize, b: usize| -> String { cs[a..b].iter().collect() };
+    let k = rng.below(sc.items.len());
+    let (is_c, a, b) = sc.items[k];
+    let kind = ["block-comment", "line-comment", "paren", "break", "join", "text-comment"][rng.below(6)];
+    let mut out = String::new();
+    match kind {
+        | "block-comment" => {
+            out.push_str(&text(0, a));
+            out.push_str("/- mutant note -/ ");
+            out.push_str(&text(a, cs.len()));
+        }
+        | "line-comment" | "text-comment" => {
+            // at the end of the line that holds item k
+            let mut e = b;
+            while e < cs.len() && cs[e] != '\n' {
+                e += 1;
+            }
+            // not inside a multi-line item: only when the rest of the line holds whole items
+            if sc.items.iter().any(|(_, x, y)| *x < e && *y > e) {
+                return None;
+            }
+            out.push_str(&text(0, e));
+            out.push_str(if kind == "line-comment" { " -- mutant note" } else { "\n--| mutant note" });
+            out.push_str(&text(e, cs.len()));
+        }
+        | "paren" => {
+            let t = text(a, b);
+            if is_c || !t.chars().next().is_some_and(|c| c.is_ascii_lowercase()) || is_keyword(&t) {
+                return None;
+            }
+            out.push_str(&text(0, a));
+            out.push('(');
+            out.push_str(&t);
+            out.push(')');
+            out.push_str(&text(b, cs.len()));
+        }
+        | "break" => {
+            if k == 0 {
+                return None;
+            }
+            out.push_str(&text(0, a));
+            out.push('\n');
+            out.push_str(&text(a, cs.len()));
+        }
+        | _ => {
+            // join: remove the line break(s) before item k when the previous item is not a line comment
+            if k == 0 {
+                return None;
+            }
+            let (pc, pa, pb) = sc.items[k - 1];
+            if pc && text(pa, pb).starts_with("--") {
+                return None;
+            }
+            let gap = text(pb, a);
+            if !gap.contains('\n') {
+                return None;
+            }
+            out.push_str(&text(0, pb));
+            out.push(' ');
+            out.push_str(&text(a, cs.len()));
+        }
+    }
+    Some((out, kind))
+}
+
+fn is_keyword(t: &str) -> bool {
+    matches!(t, "end" | "begin" | "data" | "codata" | "as" | "def" | "define" | "let" | "param" | "in" | "that" | "do" | "ret" | "fn" | "pi" | "fix" | "match" | "comatch" | "forall" | "sigma" | "exists")
+}
+
+/// Code tokens modulo the printer's canonical spellings, none of which changes the parsed term:
+/// parentheses (accounted for by the structure comparison and the skeleton check), binder telescopes
+/// (`fn a b =>` / `fn a => fn b =>`), `define` / `def`, `comatch p => t end` / `fn p => t`, `@[m] _` / `@(m)`.
+fn norm_tokens(toks: &[String], drop_parens: bool) -> Vec<String> {
+    if drop_parens {
+        let kept: Vec<String> = toks.iter().filter(|t| *t != "(" && *t != ")").cloned().collect();
+        return norm_tokens_inner(&kept, true);
+    }
+    norm_tokens_inner(toks, false)
+}
+fn norm_tokens_inner(toks: &[String], parens_gone: bool) -> Vec<String> {
+    // pass 1: comatch-abstraction and hole-payload sugar
+    let mut pass1: Vec<String> = Vec::new();
+    let mut stack: Vec<bool> = Vec::new(); // for every open `end`-closed construct: is it a comatch-abstraction?
+    let mut i = 0;
+    while i < toks.len() {
+        let t = toks[i].as_str();
+        let nx = toks.get(i + 1).map(|s| s.as_str()).unwrap_or("");
+        match t {
+            | "begin" | "data" | "codata" | "match" => {
+                stack.push(false);
+                pass1.push(toks[i].clone());
+            }
+            | "comatch" => {
+                let abs = nx != "|" && nx != "end";
+                stack.push(abs);
+                pass1.push(if abs { "fn".into() } else { toks[i].clone() });
+            }
+            | "end" => {
+                if !stack.pop().unwrap_or(false) {
+                    pass1.push(toks[i].clone());
+                }
+            }
+            | "define" => pass1.push("def".into()),
+            | "@" if nx == "[" => {
+                // find the matching bracket
+                let mut depth = 0;
+                let mut j = i + 1;
+                while j < toks.len() {
+                    if toks[j] == "[" {
+                        depth += 1;
+                    } else if toks[j] == "]" {
+                        depth -= 1;
+                        if depth == 0 {
+                            break;
+                        }
+                    }
+                    j += 1;
+                }
+                if j + 1 < toks.len() && toks[j + 1] == "_" {
+                    pass1.push("@".into());
+                    if !parens_gone {
+                        pass1.push("(".into());
+                    }
+                    pass1.extend(toks[i + 2..j].iter().cloned());
+                    if !parens_gone {
+                        pass1.push(")".into());
+                    }
+                    i = j + 2;
+                    continue;
+                }
+                pass1.push(toks[i].clone());
+            }
+            | _ => pass1.push(toks[i].clone()),
+        }
+        i += 1;
+    }
+    let toks = pass1;
+    let mut out: Vec<String> = Vec::new();
+    let mut i = 0;
+    while i < toks.len() {
+        let t = toks[i].as_str();
+        let nx = toks.get(i + 1).map(|s| s.as_str()).unwrap_or("");
+        if (t == "=>" && nx == "fn") || (t == "." && matches!(nx, "forall" | "pi" | "sigma" | "exists")) {
+            i += 2;
+            continue;
+        }
+        out.push(toks[i].clone());
+        i += 1;
+    }
+    out
+}
+
+// ------------------------------------------------------------------------------------------------
+// one formatting case
+
+#[derive(Clone, Copy, Debug)]
+pub struct Opt {
+    pub width: usize,
+    pub indent: usize,
+    pub layout: LayoutIntentions,
+    pub parens: Parentheses,
+}
+impl Opt {
+    pub fn default() -> Self {
+        Opt { width: 100, indent: 2, layout: LayoutIntentions::Preserve, parens: Parentheses::Minimal }
+    }
+    pub fn pretty(&self) -> PrettyOptions {
+        PrettyOptions::default()
+            .with_line_width(self.width)
+            .with_indent(zydeco_surface::textual::fmt::IndentWidth::new(self.indent).unwrap())
+            .with_layout_intentions(self.layout)
+            .with_parentheses(self.parens)
+    }
+    pub fn name(&self) -> String {
+        format!(
+            "w{}-i{}-{}-{}",
+            self.width,
+            self.indent,
+            match self.layout {
+                | LayoutIntentions::Preserve => "preserve",
+                | LayoutIntentions::Ignore => "ignore",
+                | LayoutIntentions::BlankLinesOnly => "blank",
+            },
+            match self.parens {
+                | Parentheses::Minimal => "minimal",
+                | Parentheses::Preserve => "keep",
+            }
+        )
+    }
+}
+
+pub fn option_set(tier: &str) -> Vec<Opt> {
+    let mut v = Vec::new();
+    let widths: &[usize] = if tier == "quick" { &[100, 20, 1] } else { &[100, 40, 20, 7, 2, 1] };
+    for &width in widths {
+        for layout in [LayoutIntentions::Preserve, LayoutIntentions::Ignore, LayoutIntentions::BlankLinesOnly] {
+            for parens in [Parentheses::Minimal, Parentheses::Preserve] {
+                if tier == "quick" && layout == LayoutIntentions::BlankLinesOnly && width != 20 {
+                    continue;
+                }
+                let indent = if width == 20 { 4 } else if width == 7 { 1 } else { 2 };
+                v.push(Opt { width, indent, layout, parens });
+            }
+        }
+    }
+    v
+}
+
+#[derive(Default, Clone)]
+pub struct Tally {
+    pub runs: u64,
+    pub bad: std::collections::BTreeMap<&'static str, u64>,
+}
+impl Tally {
+    fn hit(&mut self, k: &'static str) {
+        *self.bad.entry(k).or_default() += 1;
+    }
+}
+
+fn clip(s: &str) -> String {
+    if s.len() > 1500 { format!("{}…[{} bytes]", s.chars().take(1500).collect::<String>(), s.len()) } else { s.to_string() }
+}
+
+/// Formats `src` under `opt` and evaluates every relation of C12 (total, parses, same structure),
+/// C13 (comments and tokens kept) and C14 (idempotent, one final newline).  `origin` names the case.
+/// Returns the formatted text when there is one.
+pub fn eval_case(src: &str, opt: &Opt, origin: &str, tally: &mut Tally, findings: &mut Vec<Value>) -> Option<String> {
+    let reference = match structure(src) {
+        | Ok(s) => Some(s),
+        | Err(e) if e.starts_with("parse:") => return None, // not a parseable source: not in the quantifier
+        | Err(_) => None, // parses but does not desugar: structure comparison falls back to the error text
+    };
+    // a source whose layout search already ran away is not tried again at narrow widths (one abandoned thread each)
+    if opt.width < 100 && SLOW.lock().unwrap().contains(origin.split(' ').next().unwrap_or("")) {
+        tally.hit("skipped-after-timeout");
+        return None;
+    }
+    tally.runs += 1;
+    let mut report = |prop: &str, kind: &str, detail: String, extra: Value| {
+        findings.push(json!({"property": prop, "kind": kind, "detail": detail, "origin": origin, "options": opt.name(),
+                             "input": clip(src), "extra": extra}));
+    };
+    let out1 = match format_with(src, opt.pretty()) {
+        | Ok(o) => o,
+        | Err(e) if e.starts_with("TIMEOUT") => {
+            tally.hit("timeout");
+            SLOW.lock().unwrap().insert(origin.split(' ').next().unwrap_or("").to_string());
+            let depth = nesting_depth(src);
+            let cause = if depth >= 9 { "deep-nesting" } else { "other" };
+            report("C12", "fmt-timeout", format!("cause={cause}; delimiter nesting depth {depth}; {e}"), Value::Null);
+            return None;
+        }
+        | Err(e) => {
+            tally.hit("panic");
+            let cause = if block_comment_before_line_start_construct(src) {
+                "block-comment-before-a-construct-that-starts-a-line"
+            } else if scan(src).comments.iter().any(|c| c.kind == "block") {
+                "block-comment-carried-to-a-construct-that-starts-a-line" // the next entity start lies further ahead (after closers, a meta payload)
+            } else {
+                "other"
+            };
+            report("C12", "fmt-panic", format!("cause={cause}; {e}"), Value::Null);
+            return None;
+        }
+    };
+    // C12: output parses and denotes the same term
+    match (structure(&out1), &reference) {
+        | (Err(e), _) if e.starts_with("parse:") => {
+            tally.hit("unparsable");
+            report("C12", "output-does-not-parse", e, json!({"output": clip(&out1)}));
+            return Some(out1);
+        }
+        | (Ok(s), Some(r)) if &s != r => {
+            tally.hit("structure");
+            report("C12", "structure-changed", first_difference(r, &s), json!({"output": clip(&out1)}));
+        }
+        | (Err(e), Some(_)) => {
+            tally.hit("structure");
+            report("C12", "structure-changed", format!("output no longer desugars: {e}"), json!({"output": clip(&out1)}));
+        }
+        | _ => {}
+    }
+    // C13: comments in order with their content; code tokens accounted for
+    let (a, b) = (scan(src), scan(&out1));
+    let ca: Vec<(&str, &str)> = a.comments.iter().map(|c| (c.kind, c.text.as_str())).collect();
+    let cb: Vec<(&str, &str)> = b.comments.iter().map(|c| (c.kind, c.text.as_str())).collect();
+    let flat = |v: &Vec<(&str, &str)>| -> Vec<(String, String)> {
+        v.iter().flat_map(|(k, t)| t.split('\n').map(move |l| (k.to_string(), l.to_string())).collect::<Vec<_>>()).collect()
+    };
+    if flat(&ca) != flat(&cb) {
+        tally.hit("comments");
+        let (mut sa, mut sb) = (flat(&ca), flat(&cb));
+        let kind = if sb.len() < sa.len() {
+            "comment-lost"
+        } else if sb.len() > sa.len() {
+            "comment-duplicated"
+        } else {
+            sa.sort();
+            sb.sort();
+            if sa == sb { "comment-reordered" } else { "comment-changed" }
+        };
+        let cause = if kind == "comment-duplicated" && src.contains("format(verbatim") { "verbatim-region-with-interior-trailing-comment" } else { "other" };
+        report("C13", kind, format!("cause={cause}; {} comment lines -> {}; {:?} -> {:?}", sa.len(), sb.len(), ca.iter().take(4).collect::<Vec<_>>(), cb.iter().take(4).collect::<Vec<_>>()), json!({"output": clip(&out1)}));
+    }
+    let (ta, tb) = (norm_tokens(&a.tokens, true), norm_tokens(&b.tokens, true));
+    if ta != tb && !explained_by_puns(&ta, &tb) {
+        tally.hit("tokens");
+        let i = ta.iter().zip(tb.iter()).position(|(x, y)| x != y).unwrap_or(ta.len().min(tb.len()));
+        report(
+            "C13",
+            "code-tokens-changed",
+            format!("at token {i}: {:?} -> {:?}", ta.iter().skip(i.saturating_sub(2)).take(6).collect::<Vec<_>>(), tb.iter().skip(i.saturating_sub(2)).take(6).collect::<Vec<_>>()),
+            json!({"output": clip(&out1)}),
+        );
+    }
+    // C14: projection, one final newline
+    if !(out1.ends_with('\n') && !out1.ends_with("\n\n") && out1.trim_end_matches('\n').len() + 1 == out1.len()) {
+        tally.hit("newline");
+        report("C14", "final-newline", format!("output ends with {:?}", out1.chars().rev().take(3).collect::<String>()), Value::Null);
+    }
+    match format_with(&out1, opt.pretty()) {
+        | Ok(out2) if out2 == out1 => {}
+        | Ok(out2) => {
+            tally.hit("idempotence");
+            let third = format_with(&out2, opt.pretty()).ok();
+            let settles = third.as_deref() == Some(out2.as_str());
+            let (r1, r2) = (scan(&out1).tokens, scan(&out2).tokens);
+            let narrow = opt.width < 100 || src.contains("width(");
+            let strip = |s: &str| s.lines().map(|l| l.trim_end()).collect::<Vec<_>>().join("\n");
+            let cause = if r1 != r2 && norm_tokens(&r1, true) == norm_tokens(&r2, true) {
+                "contraction-exposed-by-the-first-run" // telescope / hole payload / pun seen only once the first run removed a pair
+            } else if r1 != r2 {
+                "tokens-change-on-second-run"
+            } else if src.contains("format(verbatim") && out2.len() > out1.len() {
+                "verbatim-region-with-interior-trailing-comment"
+            } else if mid_line_text_block(src) {
+                "text-block-not-at-line-start"
+            } else if comment_hops_over_open_paren(&out1, &out2) {
+                "comment-hops-over-an-opening-parenthesis"
+            } else if strip(&out1) == strip(&out2) {
+                "trailing-whitespace-in-first-output"
+            } else if narrow && opt.layout == LayoutIntentions::Preserve && settles {
+                "width-forced-break-read-back-as-intention"
+            } else {
+                "layout"
+            };
+            report(
+                "C14",
+                "not-idempotent",
+                format!("cause={cause}; {}; {}", first_line_difference(&out1, &out2), if settles { "third run is stable" } else { "third run differs again" }),
+                json!({"first": clip(&out1), "second": clip(&out2)}),
+            );
+        }
+        | Err(e) => {
+            tally.hit("idempotence");
+            report("C14", "not-idempotent", format!("second run fails: {e}"), json!({"first": clip(&out1)}));
+        }
+    }
+    Some(out1)
+}
+
+static SLOW: std::sync::LazyLock<std::sync::Mutex<std::collections::HashSet<String>>> = std::sync::LazyLock::new(Default::default);
+
+fn nesting_depth(src: &str) -> usize {
+    let (mut d, mut m) = (0usize, 0usize);
+    for t in scan(src).tokens {
+        match t.as_str() {
+            | "(" | "{" | "[" => {
+                d += 1;
+                m = m.max(d);
+            }
+            | ")" | "}" | "]" => d = d.saturating_sub(1),
+            | _ => {}
+        }
+    }
+    m
+}
+
+fn comment_hops_over_open_paren(a: &str, b: &str) -> bool {
+    let (x, y) = (scan(a), scan(b));
+    x.tokens == y.tokens
+        && x.comments.len() == y.comments.len()
+        && x.comments.iter().zip(y.comments.iter()).any(|(c, d)| c.at != d.at)
+        && x.comments.iter().zip(y.comments.iter()).all(|(c, d)| {
+            let (lo, hi) = if c.at <= d.at { (c.at, d.at) } else { (d.at, c.at) };
+            x.tokens[lo..hi].iter().all(|t| t == "(")
+        })
+}
+
+/// a `/- … -/` comment followed, on its own last line, by a construct the printer only starts at a line start
+fn block_comment_before_line_start_construct(src: &str) -> bool {
+    let mut rest = src;
+    while let Some(i) = rest.find("-/") {
+        let after = &rest[i + 2..];
+        let mut lines = after.lines();
+        let mut line = lines.next().unwrap_or("").to_string();
+        if let Some(next) = lines.find(|l| !l.trim().is_empty()) {
+            line.push(' ');
+            line.push_str(scan(next).tokens.first().map(|s| s.as_str()).unwrap_or(""));
+        }
+        if scan(&line).tokens.iter().any(|t| matches!(t.as_str(), "let" | "do" | "define" | "def" | "match" | "param" | "data" | "comatch" | "codata" | "begin")) {
+            return true;
+        }
+        rest = after;
+    }
+    false
+}
+
+/// a `--|` block that does not start its line (documentation blocks are meant to stand on their own lines)
+fn mid_line_text_block(src: &str) -> bool {
+    src.lines().any(|l| l.find("--|").is_some_and(|i| !l[..i].trim().is_empty()))
+}
+
+fn first_difference(a: &str, b: &str) -> String {
+    let i = a.bytes().zip(b.bytes()).position(|(x, y)| x != y).unwrap_or(a.len().min(b.len()));
+    let from = i.saturating_sub(60);
+    let cut = |s: &str| s.chars().skip(from).take(160).collect::<String>();
+    format!("desugared structures differ at byte {i}: …{} ≠ …{}", cut(a), cut(b))
+}
+fn first_line_difference(a: &str, b: &str) -> String {
+    for (i, (x, y)) in a.lines().zip(b.lines()).enumerate() {
+        if x != y {
+            return format!("line {}: {:?} -> {:?}", i + 1, x, y);
+        }
+    }
+    format!("line counts {} -> {}", a.lines().count(), b.lines().count())
+}
+
+/// `f = f` may be contracted to `= f` (and `/f = f` to `/f`): the output then lacks one identifier per pun.
+fn explained_by_puns(a: &[String], b: &[String]) -> bool {
+    // contract every `x = x` / `x = x :` in both and compare
+    let contract = |v: &[String]| -> Vec<String> {
+        let mut out: Vec<String> = Vec::new();
+        let mut i = 0;
+        while i < v.len() {
+            if i + 2 < v.len() && v[i + 1] == "=" && v[i] == v[i + 2] && v[i].chars().next().is_some_and(|c| c.is_ascii_alphabetic() || c == '_') {
+                out.push("=".into());
+                out.push(v[i].clone());
+                i += 3;
+                continue;
+            }
+            if i + 3 < v.len() && v[i] == "/" && v[i + 2] == "=" && v[i + 1] == v[i + 3] {
+                out.push("/".into());
+                out.push(v[i + 1].clone());
+                i += 4;
+                continue;
+            }
+            out.push(v[i].clone());
+            i += 1;
+        }
+        out
+    };
+    contract(a) == contract(b)
+}
+
+
+// ------------------------------------------------------------------------------------------------
+// spec -> code: trees of spec/ZyFormat.tla
+
+fn same_term(a: &Result<String, String>, b: &Result<String, String>) -> bool {
+    match (a, b) {
+        | (Ok(x), Ok(y)) => x == y,
+        | (Err(x), Err(y)) => !x.starts_with("parse:") && x == y,
+        | _ => false,
+    }
+}
+
+fn join(toks: &[&str]) -> String {
+    let mut s = toks.join(" ");
+    s.push('\n');
+    s
+}
+
+/// zyconf replay-format CASES TRACE SUMMARY TIER
+pub fn replay_format(cases: &str, trace: &str, summary: &str, tier: &str) {
+    let cases = read_ndjson(std::path::Path::new(cases));
+    let opts = option_set(tier);
+    let comment_stride = if tier == "quick" { 3 } else { 1 };
+    let results = par_map_with(
+        &cases,
+        threads(),
+        |_| (),
+        |_, idx, c| {
+            let strs = |k: &str| -> Vec<String> { c[k].as_array().unwrap().iter().map(|x| x.as_str().unwrap().to_string()).collect() };
+            let nums = |k: &str| -> Vec<usize> { c[k].as_array().unwrap().iter().map(|x| x.as_u64().unwrap() as usize).collect() };
+            let (toks, kinds, pars) = (strs("toks"), strs("kinds"), strs("pars"));
+            let bare_ok = c["bareOk"].as_bool().unwrap();
+            let rewritten = c["rw"].as_bool().unwrap();
+            let pick = |f: &dyn Fn(&str) -> bool| -> (Vec<&str>, Vec<&str>) {
+                let ix: Vec<usize> = (0..toks.len()).filter(|i| f(&pars[*i])).collect();
+                (ix.iter().map(|i| toks[*i].as_str()).collect(), ix.iter().map(|i| kinds[*i].as_str()).collect())
+            };
+            let (full_t, _full_k) = pick(&|_| true);
+            let (min_t, min_k) = pick(&|p| p != "red");
+            let (bare_t, _) = pick(&|p| p == "no");
+            let (full, min, bare) = (join(&full_t), join(&min_t), join(&bare_t));
+            let mut tally = Tally::default();
+            let mut findings: Vec<Value> = Vec::new();
+            let origin = format!("tree#{idx} {}", min.trim_end());
+            let sref = structure(&full);
+            if matches!(&sref, Err(e) if e.starts_with("parse:") || e.starts_with("PANIC")) {
+                findings.push(json!({"property": "C12", "kind": "template-does-not-parse", "detail": format!("{:?}", sref), "origin": origin, "input": full}));
+                return (tally, findings, json!({"ev": "tree", "id": idx, "template": false, "grammar": false}));
+            }
+            // the model's elision table against the real grammar
+            let smin = structure(&min);
+            let mut grammar_ok = true;
+            if !same_term(&smin, &sref) {
+                grammar_ok = false;
+                findings.push(json!({"property": "C12", "kind": "elision-table-vs-grammar", "origin": origin, "input": min,
+                    "detail": format!("the pairs the model calls redundant are not: minimal spelling `{}` does not denote the term of `{}` ({})", min.trim_end(), full.trim_end(),
+                                      match &smin { | Err(e) => e.clone(), | Ok(_) => "parses to another term".into() })}));
+            }
+            let sbare = structure(&bare);
+            if same_term(&sbare, &sref) != bare_ok {
+                grammar_ok = false;
+                findings.push(json!({"property": "C12", "kind": "elision-table-vs-grammar", "origin": origin, "input": bare,
+                    "detail": format!("model says parentheses are {} but the bare spelling `{}` {} the term of `{}`", if bare_ok { "all redundant" } else { "needed" },
+                                      bare.trim_end(), if bare_ok { "does not denote" } else { "denotes" }, full.trim_end())}));
+            }
+            // every spelling under every option
+            let mut canon_bad = 0u64;
+            let mut skeleton_bad = 0u64;
+            for opt in &opts {
+                let mut outs: Vec<(&str, Option<String>)> = Vec::new();
+                outs.push(("full", eval_case(&full, opt, &origin, &mut tally, &mut findings)));
+                outs.push(("minimal", eval_case(&min, opt, &origin, &mut tally, &mut findings)));
+                if bare_ok {
+                    outs.push(("bare", eval_case(&bare, opt, &origin, &mut tally, &mut findings)));
+                }
+                if opt.parens == Parentheses::Minimal {
+                    // C14 canonicity: spellings that differ in redundant single-line pairs format to one text
+                    let first = outs[0].1.clone();
+                    // (a group that is multi-line in the output is kept as an indentation boundary by design)
+                    let single_line = outs.iter().all(|(_, o)| o.as_deref().is_some_and(|o| o.trim_end().lines().count() == 1));
+                    for (name, o) in &outs[1..] {
+                        if !single_line {
+                            break;
+                        }
+                        if o.is_some() && first.is_some() && *o != first {
+                            canon_bad += 1;
+                            let (r1, r2) = (scan(first.as_deref().unwrap()).tokens, scan(o.as_deref().unwrap()).tokens);
+                            let cause = if norm_tokens(&r1, true) == norm_tokens(&r2, true) { "contraction-hidden-by-a-redundant-pair" } else { "other" };
+                            findings.push(json!({"property": "C14", "kind": "not-canonical", "origin": origin, "options": opt.name(), "input": full,
+                                "detail": format!("cause={cause}; full and {name} spellings format differently: {:?} vs {:?}", first.as_deref().unwrap_or(""), o.as_deref().unwrap_or(""))}));
+                            break;
+                        }
+                    }
+                    // the output carries exactly the pairs the model calls needed (single-line layouts only)
+                    if single_line && !rewritten {
+                        if let Some(o) = &first {
+                            let got = norm_tokens(&scan(o).tokens, false);
+                            let want = norm_tokens(&scan(&min).tokens, false);
+                            if got != want && !explained_by_puns(&want, &got) {
+                                skeleton_bad += 1;
+                                let cause = if norm_tokens(&got, true) == norm_tokens(&want, true) { "pairs-differ" } else { "tokens-differ" };
+                                findings.push(json!({"property": "C14", "kind": "paren-skeleton", "origin": origin, "options": opt.name(), "input": full,
+                                    "detail": format!("cause={cause}; expected `{}` got `{}`", want.join(" "), got.join(" "))}));
+                            }
+                        }
+                    }
+                }
+            }
+            // C13: one comment in every token gap of the minimal spelling
+            let (pred_stay, pred_hop) = (nums("predMin"), nums("predMinHop"));
+            // a spec token may be several lexemes (`@[inline]`): positions are compared in spec-token units
+            let lexemes: Vec<usize> = min_t.iter().map(|t| scan(t).tokens.len()).collect();
+            let min_lex: Vec<String> = scan(&min).tokens;
+            let to_spec = |lex_at: usize| -> Option<usize> {
+                let mut acc = 0;
+                for (i, l) in lexemes.iter().enumerate() {
+                    if acc == lex_at {
+                        return Some(i);
+                    }
+                    acc += l;
+                }
+                if acc == lex_at { Some(lexemes.len()) } else { None }
+            };
+            let mut placements = 0u64;
+            let mut moved_as_modelled = 0u64;
+            let mut model_imprecise = 0u64;
+            let n = min_t.len();
+            for g in 0..=n {
+                if (idx + g) % comment_stride != 0 {
+                    continue;
+                }
+                for (ck, ctext) in [("block", "/- note -/"), ("line", "-- note\n"), ("text", "--| note\n")] {
+                    let mut parts: Vec<&str> = min_t[..g].to_vec();
+                    parts.push(ctext);
+                    parts.extend_from_slice(&min_t[g..]);
+                    let mut src = String::new();
+                    for (k, p) in parts.iter().enumerate() {
+                        if k > 0 && !src.ends_with('\n') {
+                            src.push(' ');
+                        }
+                        src.push_str(p);
+                    }
+                    if !src.ends_with('\n') {
+                        src.push('\n');
+                    }
+                    for opt in [Opt::default(), Opt { parens: Parentheses::Preserve, ..Opt::default() }] {
+                        placements += 1;
+                        let o = format!("{origin} comment({ck})@gap{g}");
+                        let Some(out) = eval_case(&src, &opt, &o, &mut tally, &mut findings) else { continue };
+                        // the hop needs the grouping node to be elided: minimal policy and a group that the layout keeps on one line
+                        // (which of the two is a layout decision the model leaves open)
+                        let sc = scan(&out);
+                        if rewritten || sc.tokens != min_lex || sc.comments.len() != 1 {
+                            continue; // tokens changed (telescopes merged) or comment lost (already reported)
+                        }
+                        let Some(at) = to_spec(sc.comments[0].at) else { continue };
+                        let (lo, hi) = if at >= g { (g, at) } else { (at, g) };
+                        // an opening parenthesis is neutral: the comment stays directly before the same element
+                        let pred: Vec<usize> = (0..pred_stay.len()).map(|i| if opt.parens == Parentheses::Minimal && at == pred_hop[i] { pred_hop[i] } else { pred_stay[i] }).collect();
+                        let crossed: std::collections::BTreeSet<&str> = (lo..hi).filter(|i| min_t[*i] != "(").map(|i| min_k[i]).collect();
+                        if at != pred[g] {
+                            model_imprecise += 1;
+                            if std::env::var("ZYFMT_DEBUG").is_ok() {
+                                eprintln!("IMPRECISE gap {g} pred {} actual {at}: {:?} -> {:?}", pred[g], src, out);
+                            }
+                        }
+                        if crossed.iter().any(|k| !matches!(*k, "sep" | "arm")) {
+                            let modelled = at == pred[g];
+                            if modelled {
+                                moved_as_modelled += 1;
+                            }
+                            findings.push(json!({"property": "C13", "origin": o, "options": opt.name(), "input": src,
+                                "kind": if at < g { "comment-moved-backwards" } else if modelled { "comment-crosses-element" } else { "comment-moved-unmodelled" },
+                                "detail": format!("crossed={} tokens [{}]{}", crossed.iter().copied().collect::<Vec<_>>().join("+"), min_t[lo..hi].join(" "),
+                                                  if modelled { " (where the anchoring model of spec/ZyFormat.tla puts it)" } else { "" }),
+                                "extra": {"output": out}}));
+                        }
+                    }
+                }
+            }
+            let rec = json!({"ev": "tree", "id": idx, "template": true, "grammar": grammar_ok, "runs": tally.runs,
+                "timeout": tally.bad.get("timeout").copied().unwrap_or(0),
+                "panic": tally.bad.get("panic").copied().unwrap_or(0), "unparsable": tally.bad.get("unparsable").copied().unwrap_or(0),
+                "structure": tally.bad.get("structure").copied().unwrap_or(0), "comments": tally.bad.get("comments").copied().unwrap_or(0),
+                "tokens": tally.bad.get("tokens").copied().unwrap_or(0), "newline": tally.bad.get("newline").copied().unwrap_or(0),
+                "idempotence": tally.bad.get("idempotence").copied().unwrap_or(0), "canon": canon_bad, "skeleton": skeleton_bad,
+                "placements": placements, "movedAsModelled": moved_as_modelled, "modelImprecise": model_imprecise,
+                "sideBad": findings.iter().filter(|f| f["kind"].as_str().is_some_and(|k| k.starts_with("comment-crosses") || k.starts_with("comment-moved"))).count()});
+            (tally, findings, rec)
+        },
+        |_| (),
+    );
+    write_out(results, trace, summary, json!({"trees": cases.len(), "options": opts.iter().map(|o| o.name()).collect::<Vec<_>>()}));
+}
+
+fn write_out(results: Vec<(Tally, Vec<Value>, Value)>, trace: &str, summary: &str, mut extra: Value) {
+    use std::io::Write;
+    let mut t = std::io::BufWriter::new(std::fs::File::create(trace).unwrap());
+    let mut findings = Vec::new();
+    let mut runs = 0u64;
+    let mut bad: std::collections::BTreeMap<String, u64> = Default::default();
+    let mut sums: std::collections::BTreeMap<String, u64> = Default::default();
+    let mut per_key: std::collections::BTreeMap<String, u64> = Default::default();
+    for (tally, f, rec) in results {
+        writeln!(t, "{}", rec).unwrap();
+        runs += tally.runs;
+        for (k, v) in tally.bad {
+            *bad.entry(k.to_string()).or_default() += v;
+        }
+        for k in ["placements", "movedAsModelled", "modelImprecise"] {
+            if let Some(v) = rec[k].as_u64() {
+                *sums.entry(k.to_string()).or_default() += v;
+            }
+        }
+        // keep at most 200 findings per (property, kind, cause); the rest is counted
+        for x in f {
+            let cause = x["detail"].as_str().and_then(|d| d.strip_prefix("cause=")).and_then(|d| d.split(';').next()).unwrap_or("").to_string();
+            let key = format!("{}|{}|{}", x["property"].as_str().unwrap_or(""), x["kind"].as_str().unwrap_or(""), cause);
+            let n = per_key.entry(key).or_insert(0u64);
+            *n += 1;
+            if *n <= 200 {
+                findings.push(x);
+            }
+        }
+    }
+    extra["findings_by_family"] = json!(per_key);
+    extra["runs"] = json!(runs);
+    extra["bad"] = json!(bad);
+    extra["sums"] = json!(sums);
+    extra["findings"] = json!(findings);
+    std::fs::write(summary, serde_json::to_string(&extra).unwrap()).unwrap();
+    println!("format replay: {} formatting runs, {} findings", runs, extra["findings"].as_array().unwrap().len());
+}
+
+
+// ------------------------------------------------------------------------------------------------
+// repository corpus: every source under every option, starting layouts, directives, random edits
+
+/// zyconf corpus-format TRACE SUMMARY TIER MUTANTS
+pub fn corpus_format(trace: &str, summary: &str, tier: &str, mutants: usize) {
+    let files = crate::corpus::source_files();
+    let opts = option_set(tier);
+    let seed = seed_from_env();
+    let results = par_map_with(
+        &files,
+        threads(),
+        |_| (),
+        |_, idx, path| {
+            let mut tally = Tally::default();
+            let mut findings: Vec<Value> = Vec::new();
+            let name = path.strip_prefix("/repo/").unwrap_or(path).display().to_string();
+            if std::env::var("ZYFMT_DEBUG").is_ok() {
+                eprintln!("START {name}");
+            }
+            let Ok(src) = std::fs::read_to_string(path) else {
+                return (tally, findings, json!({"ev": "file", "id": idx, "parses": false}));
+            };
+            if matches!(structure(&src), Err(e) if e.starts_with("parse:")) {
+                return (tally, findings, json!({"ev": "file", "id": idx, "parses": false}));
+            }
+            let mut rng = Rng(seed ^ (idx as u64).wrapping_mul(0x9E37_79B9));
+            let mut canon_bad = 0u64;
+            let mut verbatim_bad = 0u64;
+            // (a) as written, every option; (b) other horizontal spacing must give the same text
+            let spaced = relayout(&src, "hspace", &mut rng);
+            for opt in &opts {
+                let o1 = eval_case(&src, opt, &name, &mut tally, &mut findings);
+                let o2 = eval_case(&spaced, opt, &format!("{name} [hspace]"), &mut tally, &mut findings);
+                if o1.is_some() && o2.is_some() && o1 != o2 && !src.contains("verbatim") {
+                    canon_bad += 1;
+                    findings.push(json!({"property": "C14", "kind": "not-canonical", "origin": format!("{name} [hspace]"), "options": opt.name(), "input": clip(&spaced),
+                        "detail": format!("cause=horizontal-spacing; {}", first_line_difference(o1.as_deref().unwrap(), o2.as_deref().unwrap()))}));
+                }
+            }
+            // (c) other starting layouts (C14 is about all of them, not the authors' own)
+            for how in ["flat", "broken"] {
+                let v = relayout(&src, how, &mut rng);
+                for opt in opts.iter().filter(|o| o.width >= 100 || tier != "quick") {
+                    eval_case(&v, opt, &format!("{name} [{how}]"), &mut tally, &mut findings);
+                }
+            }
+            // (d) the formatter's own output at another width as the starting layout
+            for (w1, w2) in [(30usize, 100usize), (100, 30), (60, 80)] {
+                if tier == "quick" && w1 == 60 {
+                    continue;
+                }
+                let first = Opt { width: w1, ..Opt::default() };
+                if SLOW.lock().unwrap().contains(name.as_str()) {
+                    continue;
+                }
+                if let Ok(o) = format_with(&src, first.pretty()) {
+                    eval_case(&o, &Opt { width: w2, ..Opt::default() }, &format!("{name} [own output at width {w1}]"), &mut tally, &mut findings);
+                }
+            }
+            // (e) directives in the source
+            let directives: &[&str] = if tier == "quick" {
+                &["width(30)", "layout(ignore), parentheses(preserve)", "verbatim"]
+            } else {
+                &["width(30)", "width(1)", "width(60), indent(4)", "layout(ignore)", "layout(blank_lines)", "parentheses(preserve)", "layout(ignore), parentheses(preserve)", "verbatim", "width(45), layout(preserve), parentheses(minimal), indent(3)"]
+            };
+            for d in directives {
+                if d.contains("width") && SLOW.lock().unwrap().contains(name.as_str()) {
+                    continue;
+                }
+                let wrapped = format!("@[format({d})] (\n{}\n)\n", src.trim_end());
+                let o = eval_case(&wrapped, &Opt::default(), &format!("{name} [@[format({d})]]"), &mut tally, &mut findings);
+                if *d == "verbatim" {
+                    if let Some(o) = o {
+                        if !o.contains(src.trim_end()) {
+                            verbatim_bad += 1;
+                            findings.push(json!({"property": "C13", "kind": "verbatim-region-changed", "origin": name, "options": "default", "input": clip(&wrapped),
+                                "detail": first_line_difference(&wrapped, &o)}));
+                        }
+                    }
+                }
+                // nested: an inner directive on the whole file inside an outer one
+                if tier != "quick" {
+                    let nested = format!("@[format(width(25))] (\n@[format({d})] (\n{}\n)\n)\n", src.trim_end());
+                    eval_case(&nested, &Opt::default(), &format!("{name} [nested @[format({d})]]"), &mut tally, &mut findings);
+                }
+            }
+            // (f) random edits
+            let mut edits = 0u64;
+            let mut tries = 0;
+            while (edits as usize) < mutants && tries < mutants * 6 {
+                tries += 1;
+                let Some((m, kind)) = mutate_layout(&src, &mut rng) else { continue };
+                let sm = structure(&m);
+                if matches!(&sm, Err(e) if e.starts_with("parse:")) {
+                    continue;
+                }
+                edits += 1;
+                let origin = format!("{name} [edit {kind} #{tries}]");
+                for opt in [Opt::default(), Opt { width: 40, ..Opt::default() }, Opt { layout: LayoutIntentions::Ignore, parens: Parentheses::Preserve, ..Opt::default() }] {
+                    if opt.width < 100 && SLOW.lock().unwrap().contains(name.as_str()) {
+                        continue;
+                    }
+                    let o = eval_case(&m, &opt, &origin, &mut tally, &mut findings);
+                    if kind == "paren" && opt.parens == Parentheses::Minimal && opt.width >= 100 {
+                        // a redundant single-line pair must not show in the output
+                        if let (Some(o), Ok(base)) = (o, format_with(&src, opt.pretty())) {
+                            if same_term(&sm, &structure(&src)) && o != base {
+                                canon_bad += 1;
+                                let (r1, r2) = (scan(&o).tokens, scan(&base).tokens);
+                                let cause = if norm_tokens(&r1, true) == norm_tokens(&r2, true) && norm_tokens(&r1, false) != norm_tokens(&r2, false) { "pair-kept" }
+                                            else if norm_tokens(&r1, true) == norm_tokens(&r2, true) { "contraction-hidden-by-a-redundant-pair" } else { "other" };
+                                findings.push(json!({"property": "C14", "kind": "not-canonical", "origin": origin, "options": opt.name(), "input": clip(&m),
+                                    "detail": format!("cause={cause}; {}", first_line_difference(&base, &o))}));
+                            }
+                        }
+                    }
+                }
+            }
+            if std::env::var("ZYFMT_DEBUG").is_ok() {
+                eprintln!("DONE {name}");
+            }
+            let g = |k: &str| tally.bad.get(k).copied().unwrap_or(0);
+            let rec = json!({"ev": "file", "id": idx, "parses": true, "runs": tally.runs, "timeout": g("timeout"), "panic": g("panic"), "unparsable": g("unparsable"), "structure": g("structure"),
+                "comments": g("comments"), "tokens": g("tokens"), "newline": g("newline"), "idempotence": g("idempotence"), "canon": canon_bad, "verbatim": verbatim_bad, "edits": edits});
+            (tally, findings, rec)
+        },
+        |_| (),
+    );
+    write_out(results, trace, summary, json!({"files": files.len(), "options": opts.iter().map(|o| o.name()).collect::<Vec<_>>()}));
+}
+
 /// zyconf fmt-dump FILE : debugging aid
 pub fn fmt_dump(path: &str) {
     let src = std::fs::read_to_string(path).unwrap();
+    if std::env::var("ZYFMT_TIME").is_ok() {
+        eprintln!("same options: {} {:?}", Opt::default().pretty() == PrettyOptions::default(), Opt::default().pretty());
+        let t = std::time::Instant::now();
+        let r = format_with(&src, PrettyOptions::default());
+        eprintln!("default {:?} ok={}", t.elapsed(), r.is_ok());
+        for opt in option_set("thorough") {
+            let t = std::time::Instant::now();
+            let r = format_with(&src, opt.pretty());
+            eprintln!("{} {:?} ok={}", opt.name(), t.elapsed(), r.is_ok());
+        }
+        let t = std::time::Instant::now();
+        let _ = structure(&src);
+        eprintln!("structure {:?}", t.elapsed());
+        let mut rng = Rng(1);
+        for how in ["hspace", "flat", "broken"] {
+            let v = relayout(&src, how, &mut rng);
+            for opt in [Opt::default(), Opt { layout: LayoutIntentions::Ignore, ..Opt::default() }, Opt { width: 1, ..Opt::default() }] {
+                let t = std::time::Instant::now();
+                let r = format_with(&v, opt.pretty());
+                eprintln!("{how} {} {:?} ok={}", opt.name(), t.elapsed(), r.is_ok());
+            }
+        }
+        for d in ["width(30)", "width(1)", "verbatim", "layout(ignore), parentheses(preserve)"] {
+            let wrapped = format!("@[format({d})] (\n{}\n)\n", src.trim_end());
+            let t = std::time::Instant::now();
+            let r = format_with(&wrapped, Opt::default().pretty());
+            eprintln!("directive {d} {:?} ok={}", t.elapsed(), r.is_ok());
+        }
+        return;
+    }
     println!("{:?}", structure(&src));
     println!("{:?}", format_with(&src, PrettyOptions::default()));
     let _ = (LayoutIntentions::Preserve, Parentheses::Minimal, json!({}), Value::Null);
